@@ -35,7 +35,7 @@ Definition method_ok (s : ispec) : bool :=
   | Some KMS | Some KSS =>
       (negb (i_explicit_scheme s) || Nat.eqb (i_nalg s) 0) && Nat.eqb (i_nroots_constraints s) 0
   | Some KDC => true
-  | Some KSpline => i_chain_linear s && Nat.eqb (i_nalg s) 0
+  | Some KSpline => i_chain_linear s && Nat.eqb (i_nalg s) 0 && Nat.eqb (i_nroots_constraints s) 0
   end.
 
 (* true = nothing is rejected: the NLP is built and handed to the solver *)
